@@ -410,6 +410,11 @@ def run(ctx):
                 "time under its bound; the rendered layer is instructions[depth]; super() without a parent is an "
                 "error).  The rendered output of a given chain shape is value-level and NOT decided.")
     ctx.assume("include recursion accounting is decided under C11.R1 (perform_include is a charged re-entry)")
+    # include / super / blocks restore what they change: the pairing and restoration rules of C05 (frames, captures,
+    # closures, depth, block-stack cursor, with_execution_state) are clauses of this property as well
+    if not ctx.is_borrowed:
+        from . import c05 as _c05
+        _c05.run(ctx.borrowed("C05", "C06.I9:"))
     cfgs = [c for c in ctx.configs() if c != "MIN"]
     for cname in cfgs:
         prog = ctx.program(cname)
